@@ -14,8 +14,8 @@ from functools import partial
 ID = "C65"
 LEVEL = "exploration"
 TIERS = {
-    "quick": {"runs": 24_000, "wall": 75, "chunk": 250, "shrink_s": 30, "run_cap_s": 20},
-    "thorough": {"runs": 3_000_000, "wall": 840, "chunk": 1000, "shrink_s": 90, "run_cap_s": 20},
+    "quick": {"runs": 24_000, "wall": 75, "chunk": 250, "shrink_s": 30, "run_cap_s": 120},
+    "thorough": {"runs": 3_000_000, "wall": 840, "chunk": 1000, "shrink_s": 90, "run_cap_s": 120},
 }
 RULE = (
     "one run = one executor (backend x constructor x max_workers 1-16 x persist) driven through a "
